@@ -5,6 +5,8 @@
 #include <stdlib.h>
 #include <string.h>
 #include <time.h>
+#include <sys/mman.h>
+#include <unistd.h>
 
 vf_results R;
 vf_args A;
@@ -49,9 +51,21 @@ static struct viol { char sig[200]; char detail[600]; char cex[300]; uint64_t co
 static int nV;
 int vf_nviolations(void) { return nV; }
 
+int vf_violation_sink_fd = -1;
+extern uint64_t fr_current_idx __attribute__((weak));
+
 void vf_violation(const char *sig, const char *fmt, ...) {
     int i;
     if (vf_suppress) return;
+    if (vf_violation_sink_fd >= 0) {           /* forked child: hand the record to the parent */
+        char buf[1200]; int o = snprintf(buf, sizeof buf, "%llu\t%s\t", (unsigned long long)(&fr_current_idx ? fr_current_idx : 0), sig);
+        va_list ap2; va_start(ap2, fmt); o += vsnprintf(buf + o, sizeof buf - (size_t)o - 2, fmt, ap2); va_end(ap2);
+        for (int k = 0; k < o; k++) if (buf[k] == '\n') buf[k] = ' ';
+        buf[o++] = '\n';
+        if (write(vf_violation_sink_fd, buf, (size_t)o) < 0) _exit(3);
+        vf_violation_events++;
+        return;
+    }
     if (!vf_violation_events) vf_first_violation_t = vf_now_s();
     vf_violation_events++;
     for (i = 0; i < nV; i++) if (strcmp(V[i].sig, sig) == 0) { V[i].count++; return; }
@@ -87,13 +101,22 @@ void vf_violation(const char *sig, const char *fmt, ...) {
 /* ------------------------------------------------------------ outcomes */
 #define OC_CAP (1u << 20)
 static uint64_t *oc_tab; static uint64_t oc_n;
+static uint64_t *oc_n_shared;
+void vf_outcome_make_shared(void) {          /* outcomes registered by forked children are seen by the parent */
+    uint64_t *t = mmap(NULL, OC_CAP * 8 + 4096, PROT_READ | PROT_WRITE, MAP_SHARED | MAP_ANONYMOUS, -1, 0);
+    if (t == MAP_FAILED) vf_harness_error("mmap failed");
+    if (oc_tab) memcpy(t, oc_tab, OC_CAP * 8);
+    oc_tab = t; oc_n_shared = t + OC_CAP; *oc_n_shared = oc_n;
+}
 void vf_outcome(uint64_t h) {
     if (!oc_tab) oc_tab = calloc(OC_CAP, 8);
+    if (oc_n_shared) oc_n = *oc_n_shared;
     if (oc_n >= OC_CAP / 2) return;
     if (h == 0) h = 1;
     uint64_t i = h & (OC_CAP - 1);
     while (oc_tab[i]) { if (oc_tab[i] == h) return; i = (i + 1) & (OC_CAP - 1); }
     oc_tab[i] = h; oc_n++;
+    if (oc_n_shared) *oc_n_shared = oc_n;
 }
 
 /* ------------------------------------------------------------ samples / extra */
@@ -123,6 +146,7 @@ void vf_write_results(void) {
     fprintf(f, ",\"states\":%llu,\"transitions\":%llu,\"evaluations\":%llu", (unsigned long long)R.states, (unsigned long long)R.transitions, (unsigned long long)R.evaluations);
     fprintf(f, ",\"max_depth\":%d,\"fixpoint\":%s,\"exhaustive\":%s", R.max_depth, R.fixpoint ? "true" : "false", R.exhaustive ? "true" : "false");
     fprintf(f, ",\"cap\":"); if (R.cap_hit) jstr(f, R.cap_hit); else fprintf(f, "null");
+    if (oc_n_shared) oc_n = *oc_n_shared;
     fprintf(f, ",\"outcomes\":%llu,\"wall_s\":%.3f", (unsigned long long)oc_n, R.wall_s);
     fprintf(f, ",\"violations\":[");
     for (int i = 0; i < nV; i++) {
